@@ -60,7 +60,9 @@ def cases(tier):
                      dict(boxsrc="box", inp="c-complete", res=None, grid=True),
                      dict(boxsrc="box", inp="c-prefix", res=None, grid=True),
                      dict(boxsrc="none", inp="mc-prefix", res=None, grid=True),
-                     dict(boxsrc="otherbox", inp="c-prefix", res="S", grid=True)]
+                     dict(boxsrc="otherbox", inp="c-prefix", res="S", grid=True),
+                     # the box comes with the centre file, although another -box / a density is given as well
+                     dict(boxsrc="otherbox", inp="mc-prefix", res=None, grid=True)]
         else:
             opts += [dict(boxsrc="dens1000", inp="c-prefix", res=None, grid=True),
                      dict(boxsrc="dens500", inp=None, res=None, grid=True, mass_mode="mixed")]
